@@ -4,6 +4,7 @@ package knxnet
 
 import (
 	"errors"
+	"io"
 	"net"
 
 	"github.com/vapourismo/knx-go/knx/cemi"
@@ -250,6 +251,11 @@ func (di *DescriptionBlock) Unpack(data []byte) (n uint, err error) {
 			return 0, err
 		}
 
+		// A DIB is at least its own two header bytes long and must lie within the data.
+		if length < 2 || n+uint(length) > uint(len(data)) {
+			return 0, io.ErrUnexpectedEOF
+		}
+
 		switch ty {
 		case DescriptionTypeDeviceInfo:
 			_, err = di.DeviceHardware.Unpack(data[n : n+uint(length)])
@@ -271,7 +277,7 @@ func (di *DescriptionBlock) Unpack(data []byte) (n uint, err error) {
 
 			// known DIBs without data will be silently ignored.
 			if length > 2 {
-				_, err = u.Unpack(data[n+2 : n+uint(length)-2])
+				_, err = u.Unpack(data[n+2 : n+uint(length)])
 				if err != nil {
 					return 0, err
 				}
